@@ -312,6 +312,12 @@ func init() {
 					ty = spec.Set(primT(t))
 				}
 				s := val(t, ty, gen.ValOpts{Simple: true, MaxElems: 4}, "set")
+				if chance(t, 1, 10, "emptydyn") {
+					// the empty set of placeholder element type (what an empty
+					// literal converts to): the set functions skip it when they
+					// choose the result element type
+					s = spec.V{T: spec.Set(spec.Dynamic), St: spec.Known}
+				}
 				// share members between the sets so that the operations are not trivially disjoint
 				if i > 0 && len(out[0].Elems) > 0 && s.T.Equal(out[0].T) && chance(t, 2, 3, "share") {
 					s.Elems = append(s.Elems, out[0].Elems[rapid.IntRange(0, len(out[0].Elems)-1).Draw(t, "shared")].Clone())
